@@ -193,6 +193,9 @@ func (ix *BM25SearchIndex) Add(id uint32, text string) error {
 	if _, exists := ix.docTokens[id]; exists {
 		ix.removeInternal(id)
 	}
+	// Re-adding a soft-deleted ID is an update: drop its tombstone so that the
+	// new text is searchable (and is not purged by the next Flush).
+	ix.deletedDocs.Remove(id)
 
 	normText := normalize(text)
 	tokens := tokenize(normText)
